@@ -14,6 +14,7 @@ import (
 	"verifharness/core"
 	"verifharness/gen"
 	"verifharness/model"
+	"verifharness/simconn"
 	"verifharness/wire"
 	"verifharness/world"
 )
@@ -31,6 +32,9 @@ func (C17) Generate(r *core.Rand, tier string, idx int) *core.Scenario {
 	sc.Cfg["maxmsgs"] = r.Range(2, 8)
 	sc.Cfg["maxuid"] = r.Range(4, 24)
 	sc.Cfg["labels"] = r.Intn(2)
+	if r.P(1, 2) {
+		sc.Cfg["echo"] = 1
+	}
 	if r.P(1, 2) {
 		sc.Cfg["deepcreate"] = 1 // CREATE / RENAME that have to create parent mailboxes
 	}
@@ -170,8 +174,25 @@ func (C17) Execute(sc *core.Scenario, keepLog bool) *core.Result {
 			}
 			return true
 		}
+		// echo: like a real remote, the simulated one reports the mailboxes the server created
+		// on it back as MailboxCreated updates (cfg echo, half of the runs), right after the
+		// command.  For a command that was answered OK that is a restatement; after a refused
+		// command nothing may come back, because nothing may have been created remotely.
+		echoRemote := func() {
+			calls := u.Conn.TakeCalls()
+			if sc.C("echo") != 1 {
+				return
+			}
+			for _, call := range calls {
+				if call.Kind == simconn.KCreateMailbox && call.Err == nil && call.NewID != "" {
+					e.W.Submit(u, imap.NewMailboxCreated(u.Conn.MailboxTemplate(imap.MailboxID(call.NewID), call.Name)))
+					e.St.Probes["mailbox_create_echoed"]++
+				}
+			}
+		}
 		for i, a := range sc.Actions {
 			e.Step = i + 1
+			echoRemote()
 			ns := names()
 			box := e.R.Boxes[ns[abs(a.Arg(0))%len(ns)]]
 			switch a.K {
@@ -655,7 +676,7 @@ func (C17) Execute(sc *core.Scenario, keepLog bool) *core.Result {
 					}
 				}
 			}
-			u.Conn.TakeCalls()
+			echoRemote()
 			e.CheckPanics()
 			invariants()
 			if e.Failed() {
